@@ -1,4 +1,166 @@
-import RV.C03.Model
+import RV.C03.LongLemmas
+import RV.C03.NumLemmas
+/-
+  C03 — property theorems: "serialise then parse gives back the same RDF graph".
+
+  Layer 1 (this part): term codecs.  Writers = models of rdflib's code (replace chains regenerated from
+  the source into Tables.lean); readers = the W3C grammars.
+-/
 namespace RV.C03
-theorem placeholder : True := trivial
+
+/-! ### Statements — string literals -/
+
+/-- N-Triples: for EVERY string (any Unicode scalar values, including quotes, backslashes, newlines,
+    carriage returns, control characters) the text `nt._quote_encode` writes is one
+    STRING_LITERAL_QUOTE token whose value is the string. -/
+def Statement_nt_lit_roundtrip : Prop :=
+  ∀ s : Str, decodeNT (ntQuoteEncode s) = some s
+
+/-- Turtle / N3 / TriG / longturtle: for EVERY string the text `Literal._quote_encode` writes (short form,
+    or long `"""` form when the string contains a newline) is one Turtle `String` token whose value is the
+    string — including strings ending in `"` or `\`, containing `"""`, `\r`, and mixes of these. -/
+def Statement_turtle_str_roundtrip : Prop :=
+  ∀ s : Str, decodeTurtle (quoteEncode s) = some s
+
+/-! ### Statements — numeric / boolean shorthand -/
+
+/-- A bare token the writer may use re-lexes to the literal's datatype (the four token grammars are disjoint). -/
+def Statement_shorthand_relex : Prop :=
+  ∀ (k : NumKind) (t : Str), tokenOk k t = true → relex t = some k
+
+/-- Whatever CPython's formatting proposes (`toks`, arbitrary) and however the reader normalises (`norm`,
+    arbitrary): the text written for a (normalised) literal of a shorthand datatype reads back as the same
+    lexical form and datatype.  For `k = double` this is `plain_double_relex` at full strength. -/
+def Statement_num_text_roundtrip : Prop :=
+  ∀ (norm : NumKind → Str → Str) (k : NumKind) (lex : Str) (toks : List Str),
+    norm k lex = lex → readNum norm k (writeNum norm k lex toks) = some (lex, k)
+
+def Statement_plain_double_relex : Prop :=
+  ∀ (norm : NumKind → Str → Str) (lex : Str) (toks : List Str),
+    norm .double lex = lex → readNum norm .double (writeNum norm .double lex toks) = some (lex, .double)
+
+/-- integer: the shorthand is the lexical form itself exactly when it is an INTEGER token; otherwise quoted. -/
+def Statement_plain_int_relex : Prop :=
+  ∀ (norm : NumKind → Str → Str) (lex : Str), norm .integer lex = lex →
+    (lexInteger lex = true →
+      writeNum norm .integer lex ((plainToken .integer lex).toList) = .shorthand lex) ∧
+    (lexInteger lex = false →
+      writeNum norm .integer lex ((plainToken .integer lex).toList) = .quoted (quoteEncode lex))
+
+/-- decimal: a DECIMAL token is written as is; a lexical form outside the grammar (e.g. `1`, to which
+    `_literal_n3` appends `.0`) is written in the quoted form unless the appended form reads back identically. -/
+def Statement_plain_decimal_relex : Prop :=
+  ∀ (norm : NumKind → Str → Str) (lex : Str), norm .decimal lex = lex →
+    (lexDecimal lex = true →
+      writeNum norm .decimal lex ((plainToken .decimal lex).toList) = .shorthand lex) ∧
+    (∀ t, plainToken .decimal lex = some t → norm .decimal t ≠ lex →
+      writeNum norm .decimal lex [t] = .quoted (quoteEncode lex))
+
+/-- boolean: `true` / `false` are written bare; any other lexical form whose lower-cased text does not
+    read back identically is quoted. -/
+def Statement_plain_bool_relex : Prop :=
+  ∀ (norm : NumKind → Str → Str) (lex : Str), norm .boolean lex = lex →
+    (lexBoolean lex = true →
+      writeNum norm .boolean lex ((plainToken .boolean lex).toList) = .shorthand lex) ∧
+    (∀ t, plainToken .boolean lex = some t → (lexBoolean t = false ∨ norm .boolean t ≠ lex) →
+      writeNum norm .boolean lex [t] = .quoted (quoteEncode lex))
+
+/-! ### Proofs -/
+
+theorem nt_lit_roundtrip : Statement_nt_lit_roundtrip := nt_lit_roundtrip'
+
+theorem turtle_str_roundtrip : Statement_turtle_str_roundtrip := by
+  intro s
+  by_cases h : lf ∈ s
+  · exact turtle_long_roundtrip s h
+  · exact turtle_short_roundtrip s h
+
+theorem shorthand_relex : Statement_shorthand_relex := fun _ _ h => tokenOk_relex h
+
+theorem num_text_roundtrip : Statement_num_text_roundtrip := by
+  intro norm k lex toks hn
+  unfold writeNum
+  split
+  · next tok h =>
+    obtain ⟨hok, hmem⟩ := plainChoice_sound h
+    simp only [readNum, tokenOk_relex hok, Option.map_some]
+    obtain ⟨t, _, ht⟩ := List.mem_map.mp hmem
+    simp only [Prod.mk.injEq] at ht
+    obtain ⟨rfl, hnorm⟩ := ht
+    rw [hnorm]
+  · simp only [readNum, turtle_str_roundtrip lex, Option.map_some, hn]
+
+theorem plain_double_relex : Statement_plain_double_relex :=
+  fun norm lex toks h => num_text_roundtrip norm .double lex toks h
+
+theorem plain_int_relex : Statement_plain_int_relex := by
+  intro norm lex hn
+  constructor
+  · intro h
+    simp [writeNum, plainToken, plainChoice, tokenOk, h, hn]
+  · intro h
+    simp [writeNum, plainToken, plainChoice, tokenOk, h]
+
+theorem lexDecimal_has_dot {t : Str} (h : lexDecimal t = true) : t.any (fun c => c == '.' || c == 'e' || c == 'E') = true := by
+  unfold lexDecimal at h
+  split at h
+  · next a b hs =>
+    obtain ⟨c, hc, e⟩ := splitAt1_spec hs
+    simp at hc; subst hc
+    have hm : '.' ∈ t := by
+      have : '.' ∈ dropSign t := by rw [e]; simp
+      cases t with
+      | nil => simp [dropSign] at this
+      | cons x r =>
+        simp only [dropSign] at this
+        split at this
+        · exact List.mem_cons_of_mem _ this
+        · exact this
+    simp only [List.any_eq_true]
+    exact ⟨'.', hm, by decide⟩
+  · simp at h
+
+theorem plain_decimal_relex : Statement_plain_decimal_relex := by
+  intro norm lex hn
+  constructor
+  · intro h
+    simp [writeNum, plainToken, lexDecimal_has_dot h, plainChoice, tokenOk, h, hn]
+  · intro t _ hne
+    simp [writeNum, plainChoice, hne]
+
+theorem plain_bool_relex : Statement_plain_bool_relex := by
+  intro norm lex hn
+  constructor
+  · intro h
+    have hl : lex.map toLowerAscii = lex := by
+      rcases lexBoolean_cases h with rfl | rfl <;> decide
+    simp [writeNum, plainToken, hl, plainChoice, tokenOk, h, hn]
+  · intro t _ hbad
+    rcases hbad with hb | hb
+    · simp [writeNum, plainChoice, tokenOk, hb]
+    · simp [writeNum, plainChoice, hb]
+
+/-- Regression witness for finding C03-F1 (the pre-fix writer used `"%e"` output unchecked): with the token
+    CPython prints for 1.23456789 and the lexical form a reader builds from it, the literal does not read back. -/
+theorem unguarded_double_loses :
+    readNum (fun _ t => if t = "1.234568e+00".toList then "1.234568".toList else t) .double
+      (writeNumUnguarded "1.234568e+00".toList) ≠ some ("1.23456789".toList, .double) := by
+  decide
+
+/-- … and the same inputs through the guarded writer do. -/
+example :
+    readNum (fun _ t => if t = "1.234568e+00".toList then "1.234568".toList else t) .double
+      (writeNum (fun _ t => if t = "1.234568e+00".toList then "1.234568".toList else t) .double
+        "1.23456789".toList ["1.234568e+00".toList, "1.23456789e0".toList])
+      = some ("1.23456789".toList, .double) := by
+  decide +kernel
+
+/-! ### Non-vacuity: the theorems speak about the hard cases -/
+
+example : quoteEncode "x\n\\\"".toList = "\"\"\"x\n\\\\\\\"\"\"\"".toList := by decide
+example : quoteEncode "a\"\"\"\"\nb\"".toList = "\"\"\"a\\\"\\\"\\\"\"\nb\\\"\"\"\"".toList := by decide
+example : ntQuoteEncode "a\n\"\\\r".toList = "\"a\\n\\\"\\\\\\r\"".toList := by decide
+example : relex "1e+00".toList = some .double ∧ relex "1.".toList = none ∧ relex "+1".toList = some .integer
+    ∧ relex ".5".toList = some .decimal := by decide
+
 end RV.C03
